@@ -349,8 +349,14 @@ func c12GenDyn(t *rapid.T) c12DynCase {
 	for i := 0; i < n; i++ {
 		kind := rapid.SampledFrom([]string{"refresh", "refresh", "refresh", "refresh", "refresh", "refresh-kept", "refresh-kept",
 			"revert", "revert-to", "set-retain", "set-retain", "set-retain"}).Draw(t, "kind")
+		// shape: often a larger setting first (revisions pile up) and a small one half way
+		// (more kept than the setting allows)
+		shaped := 0
 		if i == 0 && rapid.IntRange(0, 9).Draw(t, "retain-first") < 5 {
-			kind = "set-retain"
+			kind, shaped = "set-retain", rapid.IntRange(3, 6).Draw(t, "retain-first-val")
+		}
+		if i == n/2 && i > 0 && rapid.IntRange(0, 9).Draw(t, "retain-lowered") < 4 {
+			kind, shaped = "set-retain", rapid.IntRange(2, 3).Draw(t, "retain-lowered-val")
 		}
 		st := c12Step{Req: worldReq{Op: kind, Snap: cs.Snap}}
 		switch kind {
@@ -367,6 +373,9 @@ func c12GenDyn(t *rapid.T) c12DynCase {
 			st.Req.NotBlocked = rapid.Bool().Draw(t, "notblocked")
 		case "set-retain":
 			r := c12GenRetain(t)
+			if shaped != 0 && r.Kind != "unset" {
+				r.Val = shaped
+			}
 			st.Retain = &r
 		}
 		cs.Steps = append(cs.Steps, st)
@@ -476,7 +485,7 @@ func TestVerifC12Dynamic(t *testing.T) {
 			Gen: c12GenDyn,
 			Run: func(cs c12DynCase) (verifkit.Outcome, error) { return c12RunDyn(c, cs) },
 			Floors: map[string]float64{"gc-must-act": 0.20, "current-not-last": 0.20, "setting-changed": 0.20,
-				"target-kept": 0.20, "string-setting": 0.15, "target-before-current": 0.05, "more-than-retain-before": 0.10},
+				"target-kept": 0.20, "string-setting": 0.15, "target-before-current": 0.05, "more-than-retain-before": 0.05},
 			NonTrivialFloor: 0.6,
 		})
 	})
